@@ -57,7 +57,8 @@ def r_segsibling(idx, rep, rule="R-SEGSIBLING"):
             continue
         if not allowed(l[0], l[1:]):
             bad.append(l)
-    rep.check(not bad, rule, "%s|same algorithm as %s" % (a.key, b.name), a.where,
-              "the two closest-point routines diverge beyond the clamping of the line parameter: %s (`-` line/segment, `+` segment/segment; names shown as `_`) — e.g. a "
-              "parallel branch that fixes t and projects the reference point returns the distance from one POINT of the line to the segment, not the line's distance"
-              % bad[:5], "%d / %d lines" % (len(la), len(lb)))
+    from ..core.astutil import sibling_verdict
+    sibling_verdict(rep, rule, "%s|same algorithm as %s" % (a.key, b.name), a.where, bad,
+                    "the two closest-point routines diverge beyond the clamping of the line parameter: %s (`-` line/segment, `+` segment/segment; names shown as `_`) — e.g. a "
+                    "parallel branch that fixes t and projects the reference point returns the distance from one POINT of the line to the segment, not the line's distance"
+                    % bad[:5], "%d / %d lines" % (len(la), len(lb)), small=4)
